@@ -122,10 +122,11 @@ func checkParseError(text string, err error) (v *Violation) {
 		if de.Start < 0 || de.End < de.Start || de.End > len(text) {
 			return V("error-position", "error range [%d,%d) outside input of length %d: %q", de.Start, de.End, len(text), de.Message)
 		}
-		if de.Text != "" && de.Text != text {
-			return V("error-text", "error range refers to a different text")
+		if de.Text != text {
+			// an error whose range carries another text (or none) has no position in this input
+			return V("error-text", "an error of the chain does not refer to the input: text of length %d, message %q, rendered %q", len(de.Text), de.Message, clip(de.Error(), 200))
 		}
-		if de.Text != "" {
+		{
 			_ = de.Error()
 			loc := de.Location()
 			if loc.Line < 1 || loc.Col < 1 {
